@@ -917,7 +917,77 @@ fn probes(bytes: &[u8], rng: &mut Rng) -> Vec<u64> {
     v
 }
 
+/// `macro-iter <le|be> <macinfo|macro32|macro64> <hex body>`: what an error-ignoring caller of
+/// `MacroIter::next` sees, in the Model's text (`Gimli.Drv.C01.macroTrace`)
+fn macro_iter(a: &[&str]) -> Option<String> {
+    use gimli::read::{MacroEntry, MacroString};
+    let [e, kind, h] = a else { return None };
+    let e = endian(e)?;
+    let body = unhex(h)?;
+    let mut sec = Vec::new();
+    let is_macro = match *kind {
+        "macinfo" => false,
+        "macro32" => {
+            sec.extend_from_slice(if e == RunTimeEndian::Little { &[5, 0, 0] } else { &[0, 5, 0] });
+            true
+        }
+        "macro64" => {
+            sec.extend_from_slice(if e == RunTimeEndian::Little { &[5, 0, 1] } else { &[0, 5, 1] });
+            true
+        }
+        _ => return None,
+    };
+    sec.extend_from_slice(&body);
+    let it = if is_macro {
+        DebugMacro::from(R::new(&sec, e)).get_macros(gimli::DebugMacroOffset(0))
+    } else {
+        DebugMacinfo::from(R::new(&sec, e)).get_macinfo(gimli::DebugMacinfoOffset(0))
+    };
+    let mut it = match it {
+        Ok(it) => it,
+        Err(err) => return Some(format!("err {}", crate::util::rerr(&err))),
+    };
+    fn ms<'a>(tag: &str, line: u64, s: &MacroString<R<'a>>) -> String {
+        match s {
+            MacroString::Direct(r) => format!("{tag}:{line}:{}", hex(r.0.slice())),
+            MacroString::StringPointer(o) => format!("{tag}p:{line}:{}", o.0),
+            MacroString::IndirectStringPointer(i) => format!("{tag}x:{line}:{}", i.0),
+            MacroString::Supplementary(o) => format!("{tag}s:{line}:{}", o.0),
+        }
+    }
+    let mut out: Vec<String> = Vec::new();
+    let mut done = false;
+    for _ in 0..body.len() + 2 {
+        match it.next() {
+            Ok(None) => {
+                out.push("none".into());
+                done = true;
+                break;
+            }
+            Ok(Some(x)) => out.push(match x {
+                MacroEntry::Define { line, text } => ms("def", line, &text),
+                MacroEntry::Undef { line, name } => ms("und", line, &name),
+                MacroEntry::StartFile { line, file } => format!("start:{line}:{file}"),
+                MacroEntry::EndFile => "end".into(),
+                MacroEntry::Import { offset } => format!("imp:{}", offset.0),
+                MacroEntry::ImportSup { offset } => format!("imps:{}", offset.0),
+                MacroEntry::VendorExt { numeric, string } => format!("vend:{numeric}:{}", hex(string.0.slice())),
+            }),
+            Err(err) => out.push(format!("E{}", crate::util::rerr(&err))),
+        }
+    }
+    if !done {
+        out.push("cap".into());
+    }
+    // direct oracle (C01): an error-ignoring caller is done within len+1 calls
+    let o = if !done { " #oracle:steps MacroIter not finished after len+2 calls" } else { "" };
+    Some(format!("ok {}{o}", out.join(";")))
+}
+
 pub fn handle(op: &str, a: &[&str]) -> Option<String> {
+    if op == "macro-iter" {
+        return macro_iter(a);
+    }
     if op != "c01" || a.len() < 2 {
         return None;
     }
@@ -1434,6 +1504,60 @@ pub fn gen(ctx: &Ctx, emit: &mut dyn FnMut(String)) {
         }
         let c = *rng.pick(&["le,8,32,5", "le,4,32,4", "be,2,32,3", "le,1,64,2", "be,8,64,5"]);
         emit(format!("c01 expr - {c} {}", hex(&b)));
+    }
+    // ---- 4b. MacroIter, exact trace vs the Model: all strings of length <= 2 (3 thorough) over an
+    // alphabet of the interesting bytes, and random entry sequences with boundary operands
+    let alpha: &[u8] = &[0, 1, 2, 3, 4, 5, 7, 0x0b, 0x0c, 0x0d, 0x61, 0x7f, 0x80, 0xff];
+    let mlen = if thorough { 3 } else { 2 };
+    let mut strs: Vec<Vec<u8>> = vec![vec![]];
+    let mut frontier: Vec<Vec<u8>> = vec![vec![]];
+    for _ in 0..mlen {
+        let mut nf = Vec::new();
+        for s in &frontier {
+            for &b in alpha {
+                let mut t = s.clone();
+                t.push(b);
+                nf.push(t);
+            }
+        }
+        strs.extend(nf.iter().cloned());
+        frontier = nf;
+    }
+    for s in &strs {
+        for kind in ["macinfo", "macro32", "macro64"] {
+            emit(format!("macro-iter le {kind} {}", hex(s)));
+        }
+    }
+    for _ in 0..ctx.n(1500, 60_000) {
+        let mut b = Vec::new();
+        for _ in 0..rng.below(6) {
+            let t = *rng.pick(&[1u8, 2, 3, 4, 5, 6, 7, 8, 9, 10, 11, 12, 0xff, 0x0d, 0xe0]);
+            b.push(t);
+            match rng.below(5) {
+                0 => b.extend(uleb(rng.boundary_u64())),
+                1 => b.extend(rng.bytes_below(12)),
+                2 => {
+                    b.extend(uleb(rng.below(300)));
+                    b.extend_from_slice(b"ab\0");
+                }
+                3 => {
+                    b.extend(uleb(rng.below(300)));
+                    let w = if rng.chance(1, 2) { 4 } else { 8 };
+                    b.extend(rng.bytes(w));
+                }
+                _ => {}
+            }
+        }
+        if rng.chance(1, 2) {
+            b.push(0);
+        }
+        if rng.chance(1, 4) {
+            let k = rng.below(b.len() as u64 + 1) as usize;
+            b.truncate(k);
+        }
+        let kind = *rng.pick(&["macinfo", "macro32", "macro64"]);
+        let e = if rng.chance(1, 2) { "le" } else { "be" };
+        emit(format!("macro-iter {e} {kind} {}", hex(&b)));
     }
     // ---- 5. arbitrary bytes into the table-like sections
     let nrand = ctx.n(400, 30_000);
